@@ -7,20 +7,21 @@ Import ListNotations.
 Definition profile_units (n : nat) : list unit :=
   match nth_error profiles n with Some (_, us) => us | None => [] end.
 
-(* the SetupData added to the device object, by position in the profile's table *)
-Definition units_of (n : nat) (ids : list nat) : list unit :=
-  flat_map (fun k => match nth_error (profile_units n) k with Some u => [u] | None => [] end) ids.
+(* the SetupData added to the device object, by position in the profile's table, with what
+   their connect() returned *)
+Definition units_of (n : nat) (ids : list (nat * bool)) : list (unit * bool) :=
+  flat_map (fun kb => match nth_error (profile_units n) (fst kb) with Some u => [(u, snd kb)] | None => [] end) ids.
 
 (* (profile, ids of the added SetupData in order, feature, observed answer of the real features
    interface) *)
-Definition check_real_feature (c : nat * list nat * feature * fres) : bool :=
+Definition check_real_feature (c : nat * list (nat * bool) * feature * fres) : bool :=
   let '(n, ids, f, obs) := c in
   fres_eqb (feature_of_units default_rt push_updates (units_of n ids) f) obs.
 
 (* (profile, ids, takeover list of the interface's relayer, interface, member, gate, observed result
    of calling the member through the device object).  play_url is refused while the gate is
    closed; start reaches every connected push updater. *)
-Definition check_real_invoke (c : nat * list nat * list proto * iface * string * bool * callres) : bool :=
+Definition check_real_invoke (c : nat * list (nat * bool) * list proto * iface * string * bool * callres) : bool :=
   let '(n, ids, take, i, m, gate, obs) := c in
   let us := eff (units_of n ids) [] in
   callres_eqb
